@@ -1480,6 +1480,17 @@ fn max_end_sections(v: &Vec<Section>) -> (r: (u32, u32))
     }
     m
 }
+// the same two expressions with a default other than `(0, 0)` (`Option::unwrap_or(d)`: `d` iff the vector is empty)
+fn first_start_sections_or(v: &Vec<Section>, d: (u32, u32)) -> (r: (u32, u32))
+    ensures r == (if v@.len() == 0 { d } else { (v@[0].chrom, v@[0].start) }),
+{
+    if v.len() == 0 { d } else { (v[0].chrom, v[0].start) }
+}
+fn max_end_sections_or(v: &Vec<Section>, d: (u32, u32)) -> (r: (u32, u32))
+    ensures r == (if v@.len() == 0 { d } else { max_end_secs(v@, v@.len() as int) }),
+{
+    if v.len() == 0 { d } else { max_end_sections(v) }
+}
 fn max_end_children(v: &Vec<RTreeNode>) -> (r: (u32, u32))
     requires v@.len() > 0,
     ensures
